@@ -187,10 +187,124 @@ def judge(m, o):
     return None
 
 
+def execute_life(sandbox, flags, steps):
+    """run one life (open, reopen*, close) of the model on a real Filer -> list of per-step observations"""
+    from hio.base import filing
+    for x in os.listdir(sandbox):
+        shutil.rmtree(os.path.join(sandbox, x), True)
+    head = os.path.join(sandbox, *HEAD)
+    temphead = os.path.join(sandbox, *TEMPHEAD)
+    os.makedirs(head)
+    os.makedirs(temphead)
+    saved = (filing.Filer.TempHeadDir, filing.Filer.AltHeadDirPath)
+    filing.Filer.TempHeadDir = temphead
+    filing.Filer.AltHeadDirPath = os.path.join(sandbox, "p", "q", "r", "alt")
+    out = []
+    try:
+        with Guard(sandbox) as g:
+            f = None
+            for s in steps:
+                before = snapshot(sandbox)
+                o = {"raised": None}
+                try:
+                    with core.watchdog():
+                        if s["op"] == "open":
+                            f = filing.Filer(name=os.path.join(*flags["name"]), temp=s["t"], headDirPath=head, clean=flags["clean"],
+                                             filed=flags["filed"], extensioned=flags["ext"], reopen=True)
+                        elif s["op"] == "reopen":
+                            f.reopen(temp=s["t"], clear=s["clear"], clean=flags["clean"])
+                        else:
+                            f.close(clear=s["clear"])
+                except core.Hang:
+                    o["raised"] = "Hang"
+                except Exception as ex:
+                    o["raised"] = "%s: %s" % (type(ex).__name__, ex)
+                after = snapshot(sandbox)
+
+                def rel(p):      # the k-th temporary root is called T<k>, as in the model
+                    for k, t in enumerate(g.temps):
+                        tr = os.path.relpath(t, sandbox)
+                        if inside(p, tr):
+                            return os.path.join(os.path.dirname(tr), "T%d" % (k + 1)) + p[len(tr):]
+                    return p
+                o["created"] = sorted(rel(p) for p in after - before)
+                o["deleted"] = sorted(rel(p) for p in before - after)
+                o["path"] = rel(os.path.relpath(f.path, sandbox)) if f is not None and f.path and g.ok(f.path) else str(f and f.path)
+                o["refused"] = list(g.refused)
+                out.append(o)
+                if o["raised"] or f is None:
+                    break
+    finally:
+        filing.Filer.TempHeadDir, filing.Filer.AltHeadDirPath = saved
+    return out
+
+
+def judge_life(steps, obs):
+    for k, (s, o) in enumerate(zip(steps, obs)):
+        what = "step %d %s(%s)" % (k + 1, s["op"], ", ".join("%s=%s" % (a, s[a]) for a in ("t", "clear") if not (s["op"] == "close" and a == "t")))
+        if o["refused"]:
+            return "%s tried to touch the filesystem outside the sandbox: %s" % (what, o["refused"][:3])
+        if o["raised"]:
+            return "%s raised %s" % (what, o["raised"])
+        own = os.path.join(*(s["oldroot"] if s["wastemp"] else s["oldpath"])) if (s["oldroot"] if s["wastemp"] else s["oldpath"]) else None
+        beyond = [p for p in o["deleted"] if own is None or not inside(p, own)]
+        if beyond:
+            return "%s deleted %s, outside what the resource owned (%s)" % (what, beyond[:4], own)
+        if s["clear"] and s["wastemp"] and s["op"] != "open":
+            want = sorted(os.path.join(*q) for q in s["deleted"])
+            if o["deleted"] != want:
+                return "%s with clear left temporary resources behind: deleted %s, owned %s" % (what, o["deleted"][:4], want[:4])
+        if sorted(os.path.join(*q) for q in s["deleted"]) != o["deleted"]:
+            return "%s deleted %s, the model deletes %s" % (what, o["deleted"][:4], sorted(os.path.join(*q) for q in s["deleted"])[:4])
+        if sorted(os.path.join(*q) for q in s["created"]) != o["created"]:
+            return "%s created %s, the model creates %s" % (what, o["created"][:4], sorted(os.path.join(*q) for q in s["created"])[:4])
+        if s["op"] != "close" and os.path.normpath(o["path"]) != os.path.join(*s["path"]):
+            return "%s: .path is %s, the model says %s" % (what, o["path"], os.path.join(*s["path"]))
+    if len(obs) < len(steps):
+        return "life ended after %d of %d steps" % (len(obs), len(steps))
+    return None
+
+
+def run_lives(ctx):
+    gen = {"MCFilerReopen.tla": "---- MODULE MCFilerReopen ----\nEXTENDS FilerReopenGen\nMCHead == %s\nMCTempHead == %s\n"
+                                'MCNames == {<<"a">>, <<"a", "b">>}\n====\n' % (core.tlaval.to_tla(HEAD), core.tlaval.to_tla(TEMPHEAD))}
+    consts = {"HeadDir": "<-MCHead", "TempHead": "<-MCTempHead", "Names": "<-MCNames", "MaxReopens": 2 if ctx.quick else 3}
+    r = ctx.tlc("misc", "MCFilerReopen", core.cfg_text(constants=consts, invariants=["StepsContained", "ClearedTempGone"]), gen=gen)
+    for v in r.violated:
+        ctx.violation("the reopen model violates %s" % v, {"tlc": r.out[-4000:]})
+    g = ctx.tlc("misc", "MCFilerReopen", core.cfg_text(constants=consts, constraints=["Emit"]), gen=gen, workers=1)
+    lives = g.tagged_json("RO")
+    if len(lives) < 500:
+        raise core.MachineryError("life dump too small: %d" % len(lives))
+    sandbox = core.scratch_dir("hioverif_c29_")
+    try:
+        for m in lives:
+            flags, steps = m["flags"], m["steps"]
+            for s in steps:
+                for k in ("oldroot", "oldpath", "path", "root"):
+                    s[k] = list(s[k] or [])
+                # a snapshot difference sees the net effect of a step: what it removed and made again is not in it
+                dl, cr = [list(q) for q in (s["deleted"] or [])], [list(q) for q in (s["created"] or [])]
+                s["deleted"], s["created"] = [q for q in dl if q not in cr], [q for q in cr if q not in dl]
+            flags["name"] = list(flags["name"])
+            obs = execute_life(sandbox, flags, steps)
+            ctx.case(("life", flags["clean"], flags["filed"], flags["ext"], tuple(flags["name"]),
+                      tuple((s["op"], s["t"], s["clear"]) for s in steps)),
+                     {"flags": flags, "steps": [(s["op"], s["t"], s["clear"]) for s in steps]} if len(steps) == 4 and len(ctx.samples) < 3 else None)
+            bad = judge_life(steps, obs)
+            if bad:
+                ctx.violation("Filer(%s) life %s: %s" % (", ".join("%s=%r" % kv for kv in flags.items()),
+                                                         [(s["op"], s["t"], s["clear"]) for s in steps], bad),
+                              {"life": {"flags": flags, "steps": steps}, "real": obs})
+    finally:
+        shutil.rmtree(sandbox, True)
+
+
 def run(ctx):
+    run_lives(ctx)
     gen = {"MCFilerPath.tla": "---- MODULE MCFilerPath ----\nEXTENDS FilerPathGen\nMCHead == %s\nMCTempHead == %s\n====\n" % (
         core.tlaval.to_tla(HEAD), core.tlaval.to_tla(TEMPHEAD))}
-    segs = {"a", "b", "..", "."}
+    segs = {"a", "headx", "..", "."}   # "headx": a sibling of the head directory whose name starts with the head's name
     consts = {"Segs": segs, "HeadDir": "<-MCHead", "TempHead": "<-MCTempHead", "MaxName": 2, "MaxBase": 2}
     r = ctx.tlc("misc", "MCFilerPath", core.cfg_text(constants=consts,
                                                       invariants=["Contained", "ClearRemovesOwn", "NothingOnRefusal"]), gen=gen)
@@ -216,8 +330,9 @@ def run(ctx):
     finally:
         shutil.rmtree(sandbox, True)
     ctx.exhaustive = True
-    return ctx.finish(rule="one case per configuration (temp, clean, filed, extensioned, clear, base of <= 1 (quick) / 2 segments, name "
-                           "of 1-2 segments over {a, b, .., .}), each run in a fresh guarded sandbox",
+    return ctx.finish(rule="one case per life (flags, name, open(temp), <= 2 (quick) / 3 reopen(temp, clear), close(clear)) compared step by "
+                           "step with FilerReopen.tla; one case per configuration (temp, clean, filed, extensioned, clear, base of <= 1 (quick) / 2 segments, name "
+                           "of 1-2 segments over {a, headx, .., .}), each run in a fresh guarded sandbox",
                       assumptions=["a path equal to the head directory itself is a don't-care for the clear clauses",
                                    "shared intermediate directories (hio/, base/) of persistent resources are a don't-care; a temp "
                                    "resource owns its whole mkdtemp root",
@@ -227,6 +342,9 @@ def run(ctx):
 def replay_case(ctx, case):
     sandbox = core.scratch_dir("hioverif_c29_")
     try:
+        if "life" in case:
+            bad = judge_life(case["life"]["steps"], execute_life(sandbox, case["life"]["flags"], case["life"]["steps"]))
+            return [bad] if bad else []
         m = case["model"]
         o = execute(sandbox, m["cfg"])
         bad = judge(m, o)
